@@ -19,11 +19,11 @@ class PathView:
         self.eng, self.st, self.entry, self.result, self.frame, self.kind, self.exc = eng, st, entry, result, frame, kind, exc
 
     def term(self, text, **bind):
-        f = self.eng.spec_frame(self.frame, self.st, self.entry, dict(bind, result=self.result))
+        f = self.eng.spec_frame(self.frame, self.st, self.entry, dict(self.entry.locals, result=self.result, **bind))
         return self.eng.spec_term(text, self.st, f)
 
     def value(self, text, **bind):
-        f = self.eng.spec_frame(self.frame, self.st, self.entry, dict(bind, result=self.result))
+        f = self.eng.spec_frame(self.frame, self.st, self.entry, dict(self.entry.locals, result=self.result, **bind))
         return self.eng.spec_value(text, self.st, f)
 
     def calls(self, label):
@@ -52,7 +52,7 @@ class Engine(CoreMixin, ExprMixin, CallMixin, StmtMixin, SpecMixin):
         self.named_constants = named_constants or set()
         self.max_inline_depth = 8
         self.max_paths = 400
-        self.feas_timeout_ms = 2000
+        self.feas_timeout_ms = 1000
 
     def make_frame_for_file(self, file):
         dummy = ast.parse('def _m(): pass').body[0]
@@ -186,7 +186,7 @@ class Engine(CoreMixin, ExprMixin, CallMixin, StmtMixin, SpecMixin):
                 yield str(i), ens
 
     def check_post(self, c, s, entry, fr, result):
-        f = self.spec_frame(fr, s, entry, {'result': result})
+        f = self.spec_frame(fr, s, entry, dict(entry.locals, result=result))
         for name, clause in self.clause_items(c.ensures):
             if callable(clause):
                 P = PathView(self, s, entry, result, fr, 'return', None)
@@ -208,7 +208,7 @@ class Engine(CoreMixin, ExprMixin, CallMixin, StmtMixin, SpecMixin):
             t = self.spec_term(c.raises[name], entry.copy(), self.spec_frame(fr, entry, entry))
             self.emit(s, 'raises.%s' % name, t, 'raise %s only when (%s)' % (name, c.raises[name]))
             for nm, clause in self.clause_items(c.flags.get('raises_ensures', {}).get(name, [])):
-                f = self.spec_frame(fr, s, entry, {'result': None})
+                f = self.spec_frame(fr, s, entry, dict(entry.locals, result=None))
                 self.emit(s, 'raises.%s.post.%s' % (name, nm), self.spec_term(clause, s, f), clause)
         elif name in c.raises_any:
             return
